@@ -12,7 +12,6 @@ import (
 	"regexp"
 	"sort"
 	"strings"
-	"sync"
 	"time"
 )
 
@@ -139,10 +138,25 @@ var symRe = regexp.MustCompile(`\|[^|]*\|`)
 
 // buildQuery assembles the SMT-LIB text of one obligation, pruning declarations to the symbols that occur.
 func (V *Verifier) buildQuery(o *Oblig, sums map[string]*SumFn, negate bool, level int) string {
+	ground := level >= 10 // level 1x: lemma level x on the ground part of the assumptions
+	level = level % 10
 	var body strings.Builder
 	for _, p := range o.PC {
 		if o.Vacuity && (strings.Contains(p, "(forall ") || strings.Contains(p, "(exists ")) {
 			continue // reachability witnesses are searched on the ground part only (quantifiers make solvers answer unknown)
+		}
+		if ground && (strings.Contains(p, "(forall ") || strings.Contains(p, "(exists ")) {
+			// "ground" variant: quantified assumptions are replaced by their ground conjuncts and (below) by their
+			// instances at the goal's skolem constants. Dropping assumptions is sound; it only makes the query easier.
+			if pe, err := parseSx(p); err == nil {
+				for _, c := range splitConj(pe, 0) {
+					cs := c.String()
+					if !strings.Contains(cs, "(forall ") && !strings.Contains(cs, "(exists ") {
+						body.WriteString("(assert " + cs + ")\n")
+					}
+				}
+			}
+			continue
 		}
 		body.WriteString("(assert " + p + ")\n")
 	}
@@ -207,6 +221,9 @@ func (V *Verifier) buildQuery(o *Oblig, sums map[string]*SumFn, negate bool, lev
 		scan = strings.Join(added, "\n")
 	}
 	unfold = append(unfold, sumRelationLemmas(text+strings.Join(unfold, "\n"), sums, level)...)
+	if level >= 3 {
+		unfold = append(unfold, distributivityInstances(text+strings.Join(unfold, "\n"))...)
+	}
 	full := text + strings.Join(unfold, "\n")
 	used := map[string]bool{}
 	for _, m := range symRe.FindAllString(full, -1) {
@@ -301,18 +318,33 @@ type solverCfg struct {
 	Name  string
 	Cmd   []string
 	Pre   string
-	Level int // 0: sum unfoldings and same-function lemmas; 1: additionally cross-function congruence instances
+	Level int // 0: sum unfoldings and same-function lemmas; 1: additionally cross-function congruence instances; 2: as 1 on the ground part of the assumptions
 }
 
 func (V *Verifier) solverConfigs() []solverCfg {
 	t := V.timeout
+	z := func(name string, level int, pre string) solverCfg {
+		return solverCfg{name, []string{"z3-new", fmt.Sprintf("-T:%d", t), fmt.Sprintf("smt.random_seed=%d", V.seed%1000)}, pre, level}
+	}
+	c := func(name string, level int) solverCfg {
+		return solverCfg{name, []string{"cvc5", "-q", fmt.Sprintf("--tlimit=%d", t*1000), fmt.Sprintf("--seed=%d", V.seed%1000)}, "(set-logic ALL)\n", level}
+	}
 	return []solverCfg{
-		{"z3-new/ematch", []string{"z3-new", fmt.Sprintf("-T:%d", t), fmt.Sprintf("smt.random_seed=%d", V.seed%1000)}, "(set-option :smt.mbqi false)\n(set-option :smt.auto_config false)\n", 0},
-		{"z3-new", []string{"z3-new", fmt.Sprintf("-T:%d", t), fmt.Sprintf("smt.random_seed=%d", V.seed%1000)}, "", 0},
-		{"cvc5", []string{"cvc5", "-q", fmt.Sprintf("--tlimit=%d", t*1000), fmt.Sprintf("--seed=%d", V.seed%1000)}, "(set-logic ALL)\n", 0},
+		// stage A (levels 0): unfoldings only
+		z("z3-new/ematch", 0, "(set-option :smt.mbqi false)\n(set-option :smt.auto_config false)\n"),
+		z("z3-new", 0, ""),
+		c("cvc5", 0),
+		// stage B
 		{"z3-4.8.12", []string{"z3", fmt.Sprintf("-T:%d", t)}, "", 0},
-		{"z3-new+x", []string{"z3-new", fmt.Sprintf("-T:%d", t), fmt.Sprintf("smt.random_seed=%d", V.seed%1000)}, "", 1},
-		{"cvc5+x", []string{"cvc5", "-q", fmt.Sprintf("--tlimit=%d", t*1000), fmt.Sprintf("--seed=%d", V.seed%1000)}, "(set-logic ALL)\n", 1},
+		z("z3-new+upd", 1, ""),
+		c("cvc5+upd", 1),
+		z("z3-new+mono", 2, ""),
+		z("z3-new+lemmas", 3, ""),
+		c("cvc5+lemmas", 3),
+		z("z3-new/ground", 10, ""),
+		z("z3-new/ground+mono", 12, ""),
+		z("z3-new/ground+lemmas", 13, ""),
+		c("cvc5/ground+lemmas", 13),
 	}
 }
 
@@ -322,108 +354,128 @@ func (V *Verifier) discharge(o *Oblig, sums map[string]*SumFn, dir string) {
 		o.Status, o.Backend = "unsat", "trivial"
 		return
 	}
-	q := V.buildQuery(o, sums, !o.Vacuity, 0)
-	q1 := ""
-	if !o.Vacuity && len(sums) > 1 {
-		q1 = V.buildQuery(o, sums, true, 1)
-		if q1 == q {
-			q1 = ""
+	qs := map[int]string{}
+	query := func(level int) string {
+		if q, ok := qs[level]; ok {
+			return q
 		}
+		qs[level] = V.buildQuery(o, sums, !o.Vacuity, level)
+		return qs[level]
 	}
+	q := query(0)
 	o.Bytes = len(q)
 	if len(q) > 4<<20 {
 		o.Status, o.Detail = "error", "query larger than 4 MB"
 		return
 	}
 	base := filepath.Join(dir, sanitize(o.Name))
-	cfgs := V.solverConfigs()
+	all := V.solverConfigs()
+	hasQuant := strings.Contains(strings.Join(o.PC, " "), "(forall ")
+	var stageA, stageB []solverCfg
+	for i, c := range all {
+		if o.Vacuity && c.Level != 0 {
+			continue
+		}
+		if c.Level%10 >= 1 && len(sums) == 0 && c.Level < 10 {
+			continue // no sums: the lemma levels add nothing
+		}
+		if c.Level >= 10 && !hasQuant {
+			continue
+		}
+		if c.Level >= 10 && len(sums) == 0 && c.Level != 10 {
+			continue
+		}
+		if i < 3 {
+			stageA = append(stageA, c)
+		} else {
+			stageB = append(stageB, c)
+		}
+	}
 	type res struct {
 		cfg string
 		out string
 		dur time.Duration
 	}
-	ctx, cancel := context.WithCancel(context.Background())
-	defer cancel()
-	ch := make(chan res, len(cfgs))
 	t0 := time.Now()
-	var wg sync.WaitGroup
-	var run []solverCfg
-	for _, c := range cfgs {
-		if c.Level == 1 && q1 == "" {
-			continue
-		}
-		run = append(run, c)
-	}
-	cfgs = run
-	for i, c := range cfgs {
-		wg.Add(1)
-		go func(i int, c solverCfg) {
-			defer wg.Done()
-			f := fmt.Sprintf("%s.%d.smt2", base, i)
-			qq := q
-			if c.Level == 1 {
-				qq = q1
-			}
-			os.WriteFile(f, []byte(c.Pre+qq), 0o644)
-			defer os.Remove(f)
-			cmd := exec.CommandContext(ctx, c.Cmd[0], append(c.Cmd[1:], f)...)
-			var out bytes.Buffer
-			cmd.Stdout, cmd.Stderr = &out, &out
-			st := time.Now()
-			cmd.Run()
-			ch <- res{c.Name, out.String(), time.Since(st)}
-		}(i, c)
-	}
 	want := "unsat"
 	if o.Vacuity {
 		want = "sat"
 	}
 	var details []string
 	got := ""
-	for range cfgs {
-		r := <-ch
-		first := "error"
-		if strings.Contains(r.out, "(error") {
-			// a solver that rejected part of the query has not decided the query we meant: never accept its verdict
-			r.out = "error: " + strings.SplitN(r.out[strings.Index(r.out, "(error"):], "\n", 2)[0]
+	runStage := func(cfgs []solverCfg, quick bool) {
+		if len(cfgs) == 0 || got != "" {
+			return
 		}
-		for _, ln := range strings.Split(r.out, "\n") {
-			ln = strings.TrimSpace(ln)
-			if ln == "sat" || ln == "unsat" || ln == "unknown" || ln == "timeout" {
-				first = ln
-				break
-			}
-			if strings.Contains(ln, "interrupted by timeout") {
-				first = "timeout"
-				break
-			}
-			if strings.HasPrefix(ln, "(error") && first == "error" {
-				first = "error:" + ln
-			}
+		ctx, cancel := context.WithCancel(context.Background())
+		defer cancel()
+		ch := make(chan res, len(cfgs))
+		for i, c := range cfgs {
+			go func(i int, c solverCfg) {
+				f := fmt.Sprintf("%s.%s.%d.smt2", base, sanitize(c.Name), i)
+				os.WriteFile(f, []byte(c.Pre+query(c.Level)), 0o644)
+				defer os.Remove(f)
+				args := append([]string{}, c.Cmd[1:]...)
+				if quick {
+					// first stage: a short time limit; whatever is not decided here goes to the full portfolio
+					for k, a := range args {
+						if strings.HasPrefix(a, "-T:") {
+							args[k] = "-T:2"
+						}
+						if strings.HasPrefix(a, "--tlimit=") {
+							args[k] = "--tlimit=2000"
+						}
+					}
+				}
+				cmd := exec.CommandContext(ctx, c.Cmd[0], append(args, f)...)
+				var out bytes.Buffer
+				cmd.Stdout, cmd.Stderr = &out, &out
+				st := time.Now()
+				cmd.Run()
+				ch <- res{c.Name, out.String(), time.Since(st)}
+			}(i, c)
 		}
-		if ctx.Err() != nil && got != "" {
-			continue
-		}
-		details = append(details, fmt.Sprintf("%s:%s(%.2fs)", r.cfg, first, r.dur.Seconds()))
-		if first == want {
-			got, o.Backend = want, r.cfg
-			cancel()
-		} else if (first == "sat" || first == "unsat") && got == "" {
-			// a definite answer of the other kind
-			if !o.Vacuity && first == "sat" {
-				// sat from an incomplete-quantifier configuration is still only a candidate; keep racing
-				if o.Status == "" {
-					o.Status, o.Backend = "sat", r.cfg
+		for range cfgs {
+			r := <-ch
+			if got != "" {
+				continue
+			}
+			first := "error"
+			if strings.Contains(r.out, "(error") {
+				// a solver that rejected part of the query has not decided the query we meant: never accept its verdict
+				r.out = "error: " + strings.SplitN(r.out[strings.Index(r.out, "(error"):], "\n", 2)[0]
+			}
+			for _, ln := range strings.Split(r.out, "\n") {
+				ln = strings.TrimSpace(ln)
+				if ln == "sat" || ln == "unsat" || ln == "unknown" || ln == "timeout" {
+					first = ln
+					break
+				}
+				if strings.Contains(ln, "interrupted by timeout") {
+					first = "timeout"
+					break
+				}
+				if strings.HasPrefix(ln, "error:") && first == "error" {
+					first = ln
 				}
 			}
-			if o.Vacuity && first == "unsat" {
-				o.Status, o.Backend = "unsat", r.cfg
-				got = "unsat"
+			if first == "error" && r.out == "" {
+				first = "killed"
+			}
+			details = append(details, fmt.Sprintf("%s:%s(%.2fs)", r.cfg, first, r.dur.Seconds()))
+			if first == want {
+				got, o.Backend = want, r.cfg
 				cancel()
+			} else if o.Vacuity && first == "unsat" {
+				got, o.Backend = "unsat", r.cfg
+				cancel()
+			} else if !o.Vacuity && first == "sat" && o.Status == "" && !strings.Contains(query(0), "(forall ") {
+				o.Status, o.Backend = "sat", r.cfg // a model of a quantifier-free query: a real counterexample candidate
 			}
 		}
 	}
-	go func() { wg.Wait() }()
+	runStage(stageA, len(stageB) > 0)
+	runStage(stageB, false)
 	o.Time = time.Since(t0).Seconds()
 	sort.Strings(details)
 	o.Detail = strings.Join(details, " ")
@@ -442,6 +494,9 @@ func (V *Verifier) discharge(o *Oblig, sums map[string]*SumFn, dir string) {
 			kd = dir
 		}
 		os.WriteFile(filepath.Join(kd, sanitize(o.Name)+".smt2"), []byte(q), 0o644)
+		if V.keepQueries != "" && hasQuant {
+			os.WriteFile(filepath.Join(kd, sanitize(o.Name)+".ground.smt2"), []byte(query(13)), 0o644)
+		}
 	}
 }
 
@@ -510,7 +565,7 @@ func sumRelationLemmas(text string, sums map[string]*SumFn, level int) []string 
 		}
 		emitted := map[string]bool{}
 		// MONO / NONNEG: with non-negative terms the partial sums are non-negative and monotone in the upper bound
-		for i := 0; i < len(apps); i++ {
+		for i := 0; i < len(apps) && level >= 2; i++ {
 			pa, n := apps[i][:len(apps[i])-1], apps[i][len(apps[i])-1]
 			lo, _ := sf.inst(pa, "0")
 			nsk++
@@ -522,15 +577,24 @@ func sumRelationLemmas(text string, sums map[string]*SumFn, level int) []string 
 				if i == j || strings.Join(pa, " ") != strings.Join(apps[j][:len(apps[j])-1], " ") {
 					continue
 				}
+				if strings.ContainsAny(n, "( ") {
+					continue // only towards a whole-range bound (a plain symbol such as a slice length): keeps the instances few
+				}
 				m := apps[j][len(apps[j])-1]
 				nsk++
 				sk2 := fmt.Sprintf("sumsk_%d", nsk)
 				_, b2 := sf.inst(pa, sk2)
 				out = append(out, fmt.Sprintf("(declare-const %s Int)", sk2))
 				out = append(out, fmt.Sprintf("(assert (=> (and (<= %s %s) (=> (and (<= %s %s) (< %s %s)) (>= %s 0))) (<= %s %s)))", m, n, lo, sk2, sk2, n, b2, sApp(sf.Name, apps[j]...), sApp(sf.Name, apps[i]...)))
+				// TAILZERO: if every term on [m,n) is zero the two partial sums are equal
+				nsk++
+				sk3 := fmt.Sprintf("sumsk_%d", nsk)
+				_, b3 := sf.inst(pa, sk3)
+				out = append(out, fmt.Sprintf("(declare-const %s Int)", sk3))
+				out = append(out, fmt.Sprintf("(assert (=> (and (<= %s %s) (<= %s %s) (=> (and (<= %s %s) (< %s %s)) (= %s 0))) (= %s %s)))", lo, m, m, n, m, sk3, sk3, n, b3, sApp(sf.Name, apps[j]...), sApp(sf.Name, apps[i]...)))
 			}
 		}
-		for i := 0; i < len(apps); i++ {
+		for i := 0; i < len(apps) && level >= 1; i++ {
 			for j := i + 1; j < len(apps); j++ {
 				pa, pb := apps[i][:len(apps[i])-1], apps[j][:len(apps[j])-1]
 				if strings.Join(pa, " ") == strings.Join(pb, " ") {
@@ -601,7 +665,7 @@ func sumRelationLemmas(text string, sums map[string]*SumFn, level int) []string 
 			}
 		}
 	}
-	if level >= 1 && len(all) <= 24 {
+	if level >= 3 && len(all) <= 24 {
 		for i := 0; i < len(all); i++ {
 			for j := i + 1; j < len(all); j++ {
 				A, B := all[i], all[j]
@@ -755,5 +819,55 @@ func instancesAt(e *sx, skDecls []string) []string {
 		}
 	}
 	visit(e)
+	return out
+}
+
+// distributivityInstances: for every product a*(u+v) or a*(u-v) of symbolic terms occurring in the query, the valid
+// identity a*(u±v) = a*u ± a*v is asserted (the non-linear engines of the solvers do not always find it in time).
+func distributivityInstances(text string) []string {
+	seen := map[string]bool{}
+	var out []string
+	var visit func(e *sx)
+	visit = func(e *sx) {
+		if e.isAtom() {
+			return
+		}
+		for _, k := range e.kids {
+			visit(k)
+		}
+		if len(e.kids) == 3 && e.kids[0].isAtom() && e.kids[0].atom == "*" {
+			if l, r := e.kids[1].String(), e.kids[2].String(); !isLiteralAtom(l) && !isLiteralAtom(r) && !strings.Contains(l+r, "sumvar") && !seen["sign|"+l+"|"+r] && len(seen) <= 60 {
+				// sign of a product of two non-negative terms
+				seen["sign|"+l+"|"+r] = true
+				out = append(out, fmt.Sprintf("(assert (=> (and (>= %s 0) (>= %s 0)) (>= (* %s %s) 0)))", l, r, l, r))
+			}
+			for _, pr := range [][2]*sx{{e.kids[1], e.kids[2]}, {e.kids[2], e.kids[1]}} {
+				a, b := pr[0], pr[1]
+				if b.isAtom() || len(b.kids) != 3 || !b.kids[0].isAtom() || (b.kids[0].atom != "+" && b.kids[0].atom != "-") {
+					continue
+				}
+				if isLiteralAtom(a.String()) || strings.Contains(a.String(), "sumvar") || strings.Contains(b.String(), "sumvar") {
+					continue
+				}
+				key := a.String() + "|" + b.String()
+				if seen[key] || len(seen) > 60 {
+					continue
+				}
+				seen[key] = true
+				out = append(out, fmt.Sprintf("(assert (= (* %s %s) (%s (* %s %s) (* %s %s))))", a, b, b.kids[0].atom, a, b.kids[1], a, b.kids[2]))
+			}
+		}
+	}
+	for _, line := range strings.Split(text, "\n") {
+		if !strings.HasPrefix(line, "(assert") || hasBoundArg([]string{line}) && strings.Contains(line, "(forall ") {
+			// quantified assertions: products under binders are not instantiated
+			if strings.Contains(line, "(forall ") {
+				continue
+			}
+		}
+		if e, err := parseSx(line); err == nil {
+			visit(e)
+		}
+	}
 	return out
 }
